@@ -106,6 +106,11 @@ Proof. exact ex_peer_no_deadlock. Qed.
 Example C08_connection_example : forall norm maxc,
   fst (run_loop norm maxc (nb (ex2_w 1) + 4) (new_parser 64) ex2_scripts 0 (ex2_w 1)) = ORet.
 Proof. exact ex2_never_deadlocks. Qed.
+
+(* non-vacuity of C08_client_never_deadlocks: two KeepConn requests in two segments, the second released after one EndRequest *)
+Example C08_client_example : forall norm maxc,
+  fst (run_loop norm maxc (nb (ex3_w 1) + 4) (new_parser 64) ex3_scripts 0 (ex3_w 1)) = ORet.
+Proof. exact ex3_never_deadlocks. Qed.
 '''
 
 if "C08" in which:
@@ -114,7 +119,7 @@ if "C08" in which:
    records until it has seen the replies it waits for; PBlock = Pending without a wake-up).  Proofs: Async/ConnTotal.v
    (totality), Async/ConnReads.v (accounting at every suspension point).  R is the reply specification of
    Parser/StreamSpec.v: the replies owed for a byte string by a parser in a given state. *)
-From FV Require Import %s%s Async.PeerTargets Async.PeerProofs Async.PeerTargets2 Async.PeerProofs2.
+From FV Require Import %s%s Async.PeerTargets Async.PeerProofs Async.PeerTargets2 Async.PeerProofs2 Async.PeerTargets3 Async.PeerProofs3.
 ''' % (PRE, CR)
     put("C08", "", [
         ("the only way the task can be suspended without a pending wake-up is a transport read that a GATED client does not "
@@ -152,6 +157,12 @@ From FV Require Import %s%s Async.PeerTargets Async.PeerProofs Async.PeerTargets
          "client whose segments are whole records and whose gates ask only for management replies owed for records of EARLIER segments "
          "(pipelining allowed), the connection task RETURNS: server and peer never wait for each other", "peer_never_deadlocks",
          "C08_peer_never_deadlocks", ["peer_never_deadlocks_stmt"]),
+        ("MAIN, the one-outstanding client of C07: one complete request per segment (C01-style preamble with junk, then stream records "
+         "in which every input stream of the role is terminated; management and unknown-type records anywhere; no stray BeginRequest / "
+         "AbortRequest), request j+1 released after exactly j EndRequest records and at most the management replies owed so far: for "
+         "every buffer size, handler scripts and readiness pattern the connection task RETURNS — whether the client waits for an "
+         "EndRequest or for a management reply", "client_never_deadlocks", "C08_client_never_deadlocks",
+         ["client_never_deadlocks_stmt"]),
     ], head=head, tail=TAIL_C08)
 
 if "C09" in which:
